@@ -17,6 +17,19 @@ type vUniteEnv struct {
 	t0       int64
 	acc      []int64 // acceptance time of every element that is inside the discipline, oldest first
 	mustFlush bool   // a tick was taken at least Timeout after acc[0]: the next thing the discipline does is a delivery
+	rebase    bool   // a flush left elements behind (a slice that did not fit): their period starts when that flush is over
+}
+
+// elements left behind by a flush start their period at the end of that flush (the discipline re-reads the clock
+// then); the harness takes the first clock value it sees afterwards, which is not earlier
+func (e *vUniteEnv) rebaseLeftovers() {
+	if e.rebase {
+		now := vNow()
+		for i := range e.acc {
+			e.acc[i] = now
+		}
+		e.rebase = false
+	}
 }
 
 const vC10Msg = "C10: a tick taken at least Timeout after the oldest buffered element was accepted flushes the buffer (an arrival never postpones the deadline of what is already buffered)"
@@ -93,6 +106,7 @@ func vUniteSetup(timed bool) *vUniteEnv {
 			vAssert(!e.mustFlush, vC10Msg)
 			if ok {
 				vAdvance()
+				e.rebaseLeftovers()
 				now := vNow()
 				for range v.([]int) {
 					e.acc = append(e.acc, now)
@@ -101,6 +115,7 @@ func vUniteSetup(timed bool) *vUniteEnv {
 		})
 		vOnTick(func() {
 			vAssert(!e.mustFlush, vC10Msg)
+			e.rebaseLeftovers()
 			if len(e.acc) > 0 && vNow()-e.acc[0] >= int64(opts.Timeout) {
 				e.mustFlush = true
 			}
@@ -114,6 +129,7 @@ func vUniteSetup(timed bool) *vUniteEnv {
 		} else {
 			e.acc = nil
 		}
+		e.rebase = len(e.acc) > 0
 		vAssert(len(s) > 0, "C03/C11: no output slice is empty (empty input slices produce nothing)")
 		vAssert(!e.awaiting, "C08: no further output is produced before the previous no-copy slice was released")
 		if opts.NoCopy {
